@@ -216,6 +216,7 @@ type Action struct {
 	TxHash   []byte
 	Mod      func(ctx sdk.Context, k servicekeeper.Keeper) error
 	TimeStep int64 // E only: seconds by which the block time advances (0 = one second)
+	Carry    bool  // Mod only: the calling module ignores a refusal and carries on with its message, so what the keeper wrote before refusing stays
 
 	Signer   sdk.AccAddress
 	Svc      string
@@ -506,6 +507,10 @@ func (sc *Scenario) actMod(kind, ctxHex string, consumer sdk.AccAddress, u CtxUp
 		a.Mod = func(ctx sdk.Context, k servicekeeper.Keeper) error { return k.PauseRequestContext(ctx, id, consumer) }
 	case "mstart":
 		a.Name = fmt.Sprintf("mstart(%s)", sc.ctxName(ctxHex))
+		a.Mod = func(ctx sdk.Context, k servicekeeper.Keeper) error { return k.StartRequestContext(ctx, id, consumer) }
+	case "mstart!": // the same call by a module that does not look at the error
+		a.Kind, a.Carry = "mstart", true
+		a.Name = fmt.Sprintf("mstart!(%s)", sc.ctxName(ctxHex))
 		a.Mod = func(ctx sdk.Context, k servicekeeper.Keeper) error { return k.StartRequestContext(ctx, id, consumer) }
 	case "mkill":
 		a.Name = fmt.Sprintf("mkill(%s)", sc.ctxName(ctxHex))
